@@ -1,4 +1,6 @@
 import PyYetiVerif.Model.NT
+import PyYetiVerif.Model.NTCbtf
+import PyYetiVerif.Model.NTPack
 /-! Line protocol for C15.  Floats travel as decimal `UInt64` bit patterns; complex numbers as
 two consecutive floats (re, im); arrays flat in C order.
 
@@ -7,6 +9,14 @@ request                                                            reply
 `amdrm r n nf M(2·n·n) B(2·n·n) K(2·n·n) T(2·r·n) freq(nf)`           `AM` (2·r·nf·r)   recovery-matrix form
 `ampv  r n nf M(2·n·n) B(2·n·n) K(2·n·n) bset(r naturals) freq(nf)`   `AM` (2·r·nf·r)   partition-vector form
 `idx3 nf b i j k`                                                   `<offset>`
+`cbtf r n nf M B K bset(r) a(2·r·nf) freq(nf)`                       `frc|a|d|v`  full `cb.cbtf` (Model/NTCbtf), complex Float
+`ampvf r n nf M B K bset(r) freq(nf)`                                `AM`  calcAM column by column from `cbtfCol` (unit accelerations)
+`ntflf b nf SAM LAM As`                                              `A|F|R|TAM`  `ntflF` (Model/NTPack), complex Float
+`cbtfx r n den M B K bset(r) a(2·r)`    (integers / den)             `frc|a|d|v|ok`  `cbtf` at f = 0, exact Gaussian rationals
+`ntflx b nf den SAM LAM As`             (integers / den)             `A|F|R|TAM|ok`  `ntflF`, exact; `ok` = solver spec verified exactly
+`flippv n bset...`                                                   the q-set
+`packa v len lenf nb` / `packa m rows cols lenf nb`                  `ok r c` / `err <message>`
+`packas lenf r c r' rl cl rl' k d1..dk`                              `ok` shapes / `err <kind>`
 anything else → `bad-op` -/
 open PyYetiVerif.NT
 
@@ -35,6 +45,157 @@ def parseNsA (ws : Array String) (off n : Nat) : Option (Array Nat) := do
 
 def fmtCs (xs : Array Cx) : String :=
   " ".intercalate (xs.toList.map fun z => fmtF z.re ++ " " ++ fmtF z.im)
+
+
+/-! ### the function models at complex `Float` and at exact Gaussian rationals -/
+
+def cxAbs2 (z : Cx) : Float := z.abs2
+
+/-- `A⁻¹ X` for function matrices through `gaussSolve`; zeros when singular -/
+def solveFn {α : Type} [Inhabited α] [Zero α] [Sub α] [Mul α] [Inv α]
+    (isZero : α → Bool) (better : α → α → Bool) {n m : Nat}
+    (A : Fin n → Fin n → α) (X : Fin n → Fin m → α) : Option (Fin n → Fin m → α) :=
+  let a := Array.ofFn (n := n) fun i => Array.ofFn (n := n) fun j => A i j
+  let x := Array.ofFn (n := n) fun i => Array.ofFn (n := m) fun j => X i j
+  match gaussSolve isZero better n m (fun i j => (a.getD i #[]).getD j 0) (fun i j => (x.getD i #[]).getD j 0) with
+  | none => none
+  | some rows => some fun i j => (rows.getD i.1 #[]).getD j.1 0
+
+def cxIsZero (z : Cx) : Bool := z.re == 0 && z.im == 0
+def cxBetter (p q : Cx) : Bool := q.abs2 > p.abs2
+def gqIsZero (z : GQ) : Bool := z.re == 0 && z.im == 0
+def gqBetter (p q : GQ) : Bool := gqIsZero p && !gqIsZero q
+
+/-- the q-q solver: `(s2 M + s B + K) d = f` -/
+def mkSolver {α : Type} [Inhabited α] [Zero α] [Add α] [Sub α] [Mul α] [Inv α]
+    (isZero : α → Bool) (better : α → α → Bool) {nq : Nat}
+    (Mqq Bqq Kqq : Fin nq → Fin nq → α) : QSolver α nq :=
+  fun sc f =>
+    let Z : Fin nq → Fin nq → α := fun i j => sc.s2 * Mqq i j + sc.s * Bqq i j + Kqq i j
+    match solveFn isZero better Z (fun i (_ : Fin 1) => f i) with
+    | none => fun _ => 0
+    | some d => fun i => d i 0
+
+def scOfFreq (f : Float) : FreqSc Cx :=
+  let w := twoPi * f
+  if w == 0 then FreqSc.zero else ⟨⟨0, w⟩, ⟨-(w * w), 0⟩, ⟨0, 1 / w⟩, ⟨-1 / (w * w), 0⟩⟩
+
+def fnOfArr {α : Type} [Inhabited α] (x : Array α) (n : Nat) : Fin n → Fin n → α :=
+  fun i j => x.getD (i.1 * n + j.1) default
+
+/-- index functions of a validated partition vector -/
+structure Part (n r nq : Nat) where
+  bpos : Fin r → Fin n
+  qpos : Fin nq → Fin n
+  loc : Fin n → Fin r ⊕ Fin nq
+
+def validBset (n : Nat) (bset : Array Nat) : Bool :=
+  bset.size > 0 && bset.all (· < n) && bset.toList.Nodup
+
+def mkPart (n r nq : Nat) [NeZero n] [NeZero r] [NeZero nq] (bset qset : Array Nat) : Part n r nq :=
+  -- the index functions of Model/NTCbtf (`posFn`, `locFn`; `bset_isPartition` proves they are a partition)
+  { bpos := posFn n bset.toList r
+    qpos := posFn n qset.toList nq
+    loc := locFn bset.toList qset.toList r nq }
+
+/-- all of `cbtf` for every frequency; outputs as rows-of-columns `(frc, a, d, v)` with the number of
+rows of `a d v` (`n`, or `r` when the q-set is empty) -/
+def runCbtf {α : Type} [Inhabited α] [Zero α] [Add α] [Sub α] [Mul α] [Inv α]
+    (isZero : α → Bool) (better : α → α → Bool)
+    (n : Nat) (M B K : Array α) (bset : Array Nat) (scs : Array (FreqSc α)) (a : Nat → Nat → α) :
+    Option (Array (Array α × Array α × Array α × Array α)) :=
+  if !validBset n bset then none else
+  let qset := (flippv bset.toList n).toArray
+  match n, bset.size, qset.size with
+  | n' + 1, r' + 1, 0 =>
+    let n := n' + 1
+    let r := r' + 1
+    let bpos : Fin r → Fin n := posFn n bset.toList r
+    some (scs.mapIdx fun j sc =>
+      let o := cbtfColE (fnOfArr M n) (fnOfArr B n) (fnOfArr K n) bpos (locFnE bset.toList r) sc (fun l => a l.1 j)
+      (Array.ofFn o.frc, Array.ofFn o.a, Array.ofFn o.d, Array.ofFn o.v))
+  | n' + 1, r' + 1, nq' + 1 =>
+    let n := n' + 1
+    let r := r' + 1
+    let nq := nq' + 1
+    let p : Part n r nq := mkPart n r nq bset qset
+    let nf := scs.size
+    let (outs, _) := cbtfCall (nf := nf) (mkSolver isZero better) none (fnOfArr M n) (fnOfArr B n) (fnOfArr K n)
+      p.bpos p.qpos p.loc (fun j => scs.getD j.1 ⟨0, 0, 0, 0⟩) (fun l j => a l.1 j.1)
+    some (Array.ofFn (n := nf) fun j =>
+      let o := outs j
+      (Array.ofFn o.frc, Array.ofFn o.a, Array.ofFn o.d, Array.ofFn o.v))
+  | _, _, _ => none
+
+/-- `calcAM`, partition-vector route, column by column (`calcAMpvCol` / `calcAMpvColE`) -/
+def runAmpvF (n : Nat) (M B K : Array Cx) (bset : Array Nat) (freq : Array Float) : Option (Array Cx) :=
+  if !validBset n bset then none else
+  let qset := (flippv bset.toList n).toArray
+  match n, bset.size, qset.size with
+  | n' + 1, r' + 1, 0 =>
+    let n := n' + 1
+    let r := r' + 1
+    let bpos : Fin r → Fin n := posFn n bset.toList r
+    let ms := freq.map fun f =>
+      let am := calcAMpvColE (fnOfArr M n) (fnOfArr B n) (fnOfArr K n) bpos (locFnE bset.toList r) (scOfFreq f)
+      CMat.ofFn r r fun i k => if h : i < r ∧ k < r then am ⟨i, h.1⟩ ⟨k, h.2⟩ else Cx.zero
+    some (pack3 r freq.size ms)
+  | n' + 1, r' + 1, nq' + 1 =>
+    let n := n' + 1
+    let r := r' + 1
+    let nq := nq' + 1
+    let p : Part n r nq := mkPart n r nq bset qset
+    let tf : QSolver Cx nq := mkSolver cxIsZero cxBetter (fun i j => fnOfArr M n (p.qpos i) (p.qpos j))
+      (fun i j => fnOfArr B n (p.qpos i) (p.qpos j)) (fun i j => fnOfArr K n (p.qpos i) (p.qpos j))
+    let ms := freq.map fun f =>
+      let am := calcAMpvCol (fnOfArr M n) (fnOfArr B n) (fnOfArr K n) p.bpos p.qpos p.loc tf (scOfFreq f)
+      CMat.ofFn r r fun i k => if h : i < r ∧ k < r then am ⟨i, h.1⟩ ⟨k, h.2⟩ else Cx.zero
+    some (pack3 r freq.size ms)
+  | _, _, _ => none
+
+/-- `ntflF` for every frequency: `(A, F, R, TAM, specOk)`; `specOk` = `T · Mr = Ms` holds (`eq`) -/
+def runNtflF {α : Type} [Inhabited α] [Zero α] [Add α] [Sub α] [Mul α] [Inv α]
+    (isZero : α → Bool) (better : α → α → Bool) (eq : α → α → Bool)
+    (b nf : Nat) (sam lam as : Array α) : Array (Array α × Array α × Array α × Array (Array α) × Bool) :=
+  (Array.range nf).map fun j =>
+    -- `la.solve(Ms + Ml, Ms)` for THIS frequency, computed once (a function returned by a compiled closure would be
+    -- re-evaluated at every index); `ntflF` receives it as its `solve` parameter
+    let Ms := slice3F 0 sam nf b j
+    let Ml := slice3F 0 lam nf b j
+    let pre : Array (Array α) :=
+      match solveFn isZero better (fun i k => Ms i k + Ml i k) Ms with
+      | none => #[]
+      | some Y => Array.ofFn (n := b) fun i => Array.ofFn (n := b) fun k => Y i k
+    let solve : (Fin b → Fin b → α) → (Fin b → Fin b → α) → (Fin b → Fin b → α) :=
+      fun _ _ i k => (pre.getD i.1 #[]).getD k.1 0
+    let o := ntflF 0 b nf solve sam lam as j
+    let mr := Array.ofFn (n := b) fun i => Array.ofFn (n := b) fun k => o.Mr i k
+    let mrf : Fin b → Fin b → α := fun i k => (mr.getD i.1 #[]).getD k.1 0
+    let ok := (List.finRange b).all fun i => (List.finRange b).all fun k =>
+      eq (fsum b fun l => o.TAM i l * mrf l k) (Ms i k)
+    (Array.ofFn o.A, Array.ofFn o.F, Array.ofFn o.R,
+      Array.ofFn (n := b) fun i => Array.ofFn (n := b) fun k => o.TAM i k, ok)
+
+/-! ### exact transport: integers over a common denominator in, `num/den` out -/
+
+def parseGQs (ws : Array String) (off n : Nat) (den : Nat) : Option (Array GQ) := do
+  let mut out : Array GQ := Array.mkEmpty n
+  for i in [0:n] do
+    let re ← (← ws[off + 2 * i]?).toInt?
+    let im ← (← ws[off + 2 * i + 1]?).toInt?
+    out := out.push ⟨(re : Rat) / (den : Rat), (im : Rat) / (den : Rat)⟩
+  return out
+
+def fmtQ (q : Rat) : String := toString q.num ++ "/" ++ toString q.den
+def fmtGQs (xs : Array GQ) : String := " ".intercalate (xs.toList.map fun z => fmtQ z.re ++ " " ++ fmtQ z.im)
+
+/-- columns `j` of per-frequency vectors → row-major `(rows, nf)` -/
+def rowsOfCols {α : Type} [Inhabited α] (rows : Nat) (cols : Array (Array α)) : Array α := Id.run do
+  let mut out : Array α := Array.mkEmpty (rows * cols.size)
+  for i in [0:rows] do
+    for j in [0:cols.size] do
+      out := out.push ((cols.getD j #[]).getD i default)
+  return out
 
 def answer (line : String) : String :=
   let ws := ((line.splitOn " ").filter (· ≠ "")).toArray
@@ -73,6 +234,107 @@ def answer (line : String) : String :=
         let bs ← parseNsA ws (4 + 6 * n * n) r
         let fr ← parseFsA ws (4 + 6 * n * n + r) nf
         pure (fmtCs (calcAMpv ⟨n, n, M⟩ ⟨n, n, B⟩ ⟨n, n, K⟩ bs fr))
+    | some "cbtf" => do
+        let r ← (← ws[1]?).toNat?
+        let n ← (← ws[2]?).toNat?
+        let nf ← (← ws[3]?).toNat?
+        if ws.size ≠ 4 + 6 * n * n + r + 2 * r * nf + nf then none
+        let M ← parseCs ws 4 (n * n)
+        let B ← parseCs ws (4 + 2 * n * n) (n * n)
+        let K ← parseCs ws (4 + 4 * n * n) (n * n)
+        let bs ← parseNsA ws (4 + 6 * n * n) r
+        let a ← parseCs ws (4 + 6 * n * n + r) (r * nf)
+        let fr ← parseFsA ws (4 + 6 * n * n + r + 2 * r * nf) nf
+        let outs ← runCbtf cxIsZero cxBetter n M B K bs (fr.map scOfFreq) (fun l j => a.getD (l * nf + j) Cx.zero)
+        let rows := if n = r then r else n
+        pure (fmtCs (rowsOfCols r (outs.map (·.1))) ++ "|" ++ fmtCs (rowsOfCols rows (outs.map (·.2.1))) ++ "|"
+          ++ fmtCs (rowsOfCols rows (outs.map (·.2.2.1))) ++ "|" ++ fmtCs (rowsOfCols rows (outs.map (·.2.2.2))))
+    | some "ampvf" => do
+        let r ← (← ws[1]?).toNat?
+        let n ← (← ws[2]?).toNat?
+        let nf ← (← ws[3]?).toNat?
+        if ws.size ≠ 4 + 6 * n * n + r + nf then none
+        let M ← parseCs ws 4 (n * n)
+        let B ← parseCs ws (4 + 2 * n * n) (n * n)
+        let K ← parseCs ws (4 + 4 * n * n) (n * n)
+        let bs ← parseNsA ws (4 + 6 * n * n) r
+        let fr ← parseFsA ws (4 + 6 * n * n + r) nf
+        pure (fmtCs (← runAmpvF n M B K bs fr))
+    | some "ntflf" => do
+        let b ← (← ws[1]?).toNat?
+        let nf ← (← ws[2]?).toNat?
+        let n3 := b * nf * b
+        let n2 := b * nf
+        if ws.size ≠ 3 + 4 * n3 + 2 * n2 then none
+        let sam ← parseCs ws 3 n3
+        let lam ← parseCs ws (3 + 2 * n3) n3
+        let as ← parseCs ws (3 + 4 * n3) n2
+        let o := runNtflF cxIsZero cxBetter (fun _ _ => true) b nf sam lam as
+        let tamRows : Array Cx := Id.run do
+          let mut T : Array Cx := Array.mkEmpty n3
+          for i in [0:b] do
+            for j in [0:nf] do
+              for k in [0:b] do
+                T := T.push (((o.getD j default).2.2.2.1.getD i #[]).getD k Cx.zero)
+          return T
+        pure (fmtCs (rowsOfCols b (o.map (·.1))) ++ "|" ++ fmtCs (rowsOfCols b (o.map (·.2.1))) ++ "|"
+          ++ fmtCs (rowsOfCols b (o.map (·.2.2.1))) ++ "|" ++ fmtCs tamRows)
+    | some "ntflx" => do
+        let b ← (← ws[1]?).toNat?
+        let nf ← (← ws[2]?).toNat?
+        let den ← (← ws[3]?).toNat?
+        let n3 := b * nf * b
+        let n2 := b * nf
+        if den = 0 ∨ ws.size ≠ 4 + 4 * n3 + 2 * n2 then none
+        let sam ← parseGQs ws 4 n3 den
+        let lam ← parseGQs ws (4 + 2 * n3) n3 den
+        let as ← parseGQs ws (4 + 4 * n3) n2 den
+        let o := runNtflF gqIsZero gqBetter (fun x y => decide (x = y)) b nf sam lam as
+        let tamRows : Array GQ := Id.run do
+          let mut T : Array GQ := Array.mkEmpty n3
+          for i in [0:b] do
+            for j in [0:nf] do
+              for k in [0:b] do
+                T := T.push (((o.getD j default).2.2.2.1.getD i #[]).getD k 0)
+          return T
+        pure (fmtGQs (rowsOfCols b (o.map (·.1))) ++ "|" ++ fmtGQs (rowsOfCols b (o.map (·.2.1))) ++ "|"
+          ++ fmtGQs (rowsOfCols b (o.map (·.2.2.1))) ++ "|" ++ fmtGQs tamRows ++ "|"
+          ++ (if o.all (·.2.2.2.2) then "ok" else "spec-failed"))
+    | some "cbtfx" => do
+        let r ← (← ws[1]?).toNat?
+        let n ← (← ws[2]?).toNat?
+        let den ← (← ws[3]?).toNat?
+        if den = 0 ∨ ws.size ≠ 4 + 6 * n * n + r + 2 * r then none
+        let M ← parseGQs ws 4 (n * n) den
+        let B ← parseGQs ws (4 + 2 * n * n) (n * n) den
+        let K ← parseGQs ws (4 + 4 * n * n) (n * n) den
+        let bs ← parseNsA ws (4 + 6 * n * n) r
+        let a ← parseGQs ws (4 + 6 * n * n + r) r den
+        let outs ← runCbtf gqIsZero gqBetter n M B K bs #[FreqSc.zero] (fun l _ => a.getD l 0)
+        let rows := if n = r then r else n
+        pure (fmtGQs (rowsOfCols r (outs.map (·.1))) ++ "|" ++ fmtGQs (rowsOfCols rows (outs.map (·.2.1))) ++ "|"
+          ++ fmtGQs (rowsOfCols rows (outs.map (·.2.2.1))) ++ "|" ++ fmtGQs (rowsOfCols rows (outs.map (·.2.2.2))))
+    | some "flippv" => do
+        let n ← (← ws[1]?).toNat?
+        let bs ← parseNsA ws 2 (ws.size - 2)
+        pure (" ".intercalate ((flippv bs.toList n).map toString) ++ ".")
+    | some "packa" => do
+        let sh ← match ws[1]? with
+          | some "v" => do pure (AShape.vec (← (← ws[2]?).toNat?), 3)
+          | some "m" => do pure (AShape.mat (← (← ws[2]?).toNat?) (← (← ws[3]?).toNat?), 4)
+          | _ => none
+        let lenf ← (← ws[sh.2]?).toNat?
+        let nb ← (← ws[sh.2 + 1]?).toNat?
+        match packA sh.1 lenf nb with
+        | .ok (r, c) => pure ("ok " ++ toString r ++ " " ++ toString c)
+        | .error e => pure ("err " ++ e)
+    | some "packas" => do
+        let v ← parseNsA ws 1 8
+        let k := v[7]!
+        let dims ← parseNsA ws 9 k
+        match packAs v[0]! [v[1]!, v[2]!, v[3]!] [v[4]!, v[5]!, v[6]!] dims.toList with
+        | .ok (a, t) => pure ("ok " ++ " ".intercalate (a.map toString) ++ " | " ++ " ".intercalate (t.map toString))
+        | .error e => pure ("err " ++ e)
     | some "idx3" => do
         let v ← parseNsA ws 1 5
         pure (toString (idx3 v[0]! v[1]! v[2]! v[3]! v[4]!))
